@@ -166,6 +166,27 @@ func probeAll() string {
 
 var freshProbe string
 
+func hasKeyAnywhere(v interface{}, key string) bool {
+	switch x := v.(type) {
+	case map[string]interface{}:
+		if _, ok := x[key]; ok {
+			return true
+		}
+		for _, e := range x {
+			if hasKeyAnywhere(e, key) {
+				return true
+			}
+		}
+	case []interface{}:
+		for _, e := range x {
+			if hasKeyAnywhere(e, key) {
+				return true
+			}
+		}
+	}
+	return false
+}
+
 // uncastProbe: decoding without the cast flag, on texts every cast option has an opinion about.
 func uncastProbe() string {
 	doc := []byte(`<d a="NaN" b="1" c="true"><x>Inf</x><y>true</y><z>12</z><w>-Infinity</w><v k="+inf">3.5</v></d>`)
@@ -185,7 +206,38 @@ func seqJsonProbe() string {
 	return enc(map[string]interface{}(ms)) + "\x1f" + string(xs) + "\x1f" + string(j)
 }
 
+// optdoc calls cast strconv tokens fin doc : the option history, then NewMapXml(doc, cast) -
+// beside the decoder model configured from the state the option model reaches
+func c18DocExec(op string) string {
+	c, _ := newCur(op)
+	calls := decCalls(c.val())
+	cast := c.boolean()
+	c.val()
+	c.val()
+	c.pos++
+	doc := c.str()
+	if c.err != nil {
+		return "bad-op " + c.err.Error()
+	}
+	for _, cl := range calls {
+		applyCall(cl)
+	}
+	m, err := mxj.NewMapXml([]byte(doc), cast)
+	if err != nil {
+		return "err " + xmlErrKind(err)
+	}
+	// the key prefix reaches every reserved key: with a prefix other than '#' no "#text" key
+	note := ""
+	if tk := mxj.VerifOptions()["textK"]; tk != "#text" && hasKeyAnywhere(map[string]interface{}(m), "#text") {
+		note = fmt.Sprintf("KEYPREFIX the text key is %q but the decoded Map holds a \"#text\" key", tk)
+	}
+	return "ok " + enc(map[string]interface{}(m)) + " | " + note
+}
+
 func c18Exec(op string) string {
+	if strings.HasPrefix(op, "optdoc ") {
+		return c18DocExec(op)
+	}
 	c, _ := newCur(op)
 	calls := decCalls(c.val())
 	if c.err != nil {
@@ -276,6 +328,21 @@ func c18Exec(op string) string {
 func c18Describe(op string) string {
 	c, _ := newCur(op)
 	calls := decCalls(c.val())
+	if strings.HasPrefix(op, "optdoc ") {
+		cast := c.boolean()
+		c.val()
+		c.val()
+		c.pos++
+		var parts []string
+		for _, cl := range calls {
+			if cl.arg == nil {
+				parts = append(parts, cl.name+"()")
+			} else {
+				parts = append(parts, fmt.Sprintf("%s(%#v)", cl.name, cl.arg))
+			}
+		}
+		return fmt.Sprintf("option history: %s; then NewMapXml(%q, cast=%v)", strings.Join(parts, "; "), c.str(), cast)
+	}
 	var parts []string
 	for _, cl := range calls {
 		if cl.arg == nil {
@@ -288,6 +355,26 @@ func c18Describe(op string) string {
 }
 
 func c18Judge(op, impl, model string) Verdict {
+	if strings.HasPrefix(op, "optdoc ") {
+		v := Verdict{Tags: []string{"optdoc"}}
+		if strings.HasPrefix(model, "skip-") {
+			v.Skipped, v.CorrOK = true, true
+			return v
+		}
+		if strings.HasPrefix(impl, "panic") {
+			v.OracleFail = "decoding after an option history panicked: " + impl
+			v.Sig = "optdoc:panic"
+			return v
+		}
+		ip := splitModel(impl)
+		v.CorrOK = ip[0] == model
+		v.Nontrivial = strings.HasPrefix(impl, "ok")
+		if len(ip) > 1 && ip[1] != "" {
+			v.OracleFail = ip[1]
+			v.Sig = "optdoc:keyprefix"
+		}
+		return v
+	}
 	v := Verdict{Tags: []string{"opts"}}
 	if strings.HasPrefix(impl, "panic") {
 		v.OracleFail = "option setter panicked: " + impl
@@ -340,6 +427,31 @@ func c18Gen(r *Rng, n int) []string {
 			if r.P(10) && len(cs) > 0 {
 				cs = append(cs, cs[len(cs)-1]) // repeated form
 			}
+		}
+		if r.P(30) {
+			// the state a history reaches has exactly the documented effect on decoding
+			if len(cs) > 12 {
+				cs = cs[:12]
+			}
+			var hist []optCall
+			for _, cl := range cs {
+				// (key prefixes are kept to punctuation; an empty or letter prefix is the subject
+				// of the restore theorem's hypothesis, not of this tie)
+				if cl.name == "SetGlobalKeyMapPrefix" {
+					if p, _ := cl.arg.(string); p == "_" || p == "" {
+						continue
+					}
+				}
+				hist = append(hist, cl)
+			}
+			g := c01Gen0
+			g.MaxDepth, g.MultiTextP = 2, 0
+			var sb strings.Builder
+			r.render(r.xmlDoc(&g), &sb)
+			doc := sb.String()
+			toks, fin := tokensOf([]byte(doc), false)
+			ops = append(ops, fmt.Sprintf("optdoc %s %d %s %s %s %s", encCalls(hist), b2i(r.P(40)), strconvTable(leafTexts([]byte(doc))), toks, fin, encStr(doc)))
+			continue
 		}
 		ops = append(ops, "opts "+encCalls(cs))
 	}
